@@ -117,3 +117,92 @@ Example C06_example :
        (4, Some (RErr ENotFound))] /\
     map e_owner (persisted s) = [0; 2] /\ map e_txid (persisted s) = [Some 0; Some 1].
 Proof. eexists. split; [vm_compute; reflexivity|]. vm_compute. auto. Qed.
+
+(* ---- cancellation: the request's context is done while it waits for its account locks ---------------------------
+   [ACancel t] marks the context of request [t] done; the write path consults it in one place, the wait for the
+   account locks: [AResumeCancelled t] is the ctx.Done() branch of that wait, answered [RErr ELockCancelled]. *)
+
+(* a request that gave up waiting for its locks has finished, built no entry, owns no entry anywhere -- on disk, in
+   the batcher queue, in the batch being written -- and is not inside the append critical section *)
+Theorem C06_cancelled_no_trace : forall s t th, reachable s -> get_thread (threads s) t = Some th ->
+  t_resp th = Some (RErr ELockCancelled) ->
+  t_entry th = None /\ t_pc th = PFinished /\
+  (forall e, In e (persisted s) -> e_owner e <> t) /\
+  (forall e, In e (v_pending s) -> e_owner e <> t) /\
+  (forall b e, v_batch s = Some b -> In e b -> e_owner e <> t) /\
+  v_cs s <> Some t.
+Proof. exact e1_cancelled_no_trace. Qed.
+Print Assumptions C06_cancelled_no_trace.
+
+(* the step itself writes nothing, hands nothing to the batcher, publishes nothing, leaves the head of the chain and
+   the transaction counter alone; afterwards the request is answered [RErr ELockCancelled] and its idempotency key,
+   its reference and its revert reservation are free *)
+Theorem C06_cancelled_step : forall s t s', reachable s -> step s (AResumeCancelled t) = Some s' ->
+  persisted s' = persisted s /\ v_pending s' = v_pending s /\ v_batch s' = v_batch s /\
+  published s' = published s /\ v_last s' = v_last s /\ v_lasttx s' = v_lasttx s /\
+  exists th th', get_thread (threads s) t = Some th /\ get_thread (threads s') t = Some th' /\
+    t_resp th' = Some (RErr ELockCancelled) /\
+    (rq_ik (t_req th) <> 0%N -> ~ In (rq_ik (t_req th)) (v_iks s')) /\
+    (rq_ref (t_req th) <> 0%N -> ~ In (rq_ref (t_req th)) (v_refs s')) /\
+    (rq_kind (t_req th) = KRevert -> ~ In (rq_revert (t_req th)) (v_revs s')).
+Proof. exact e1_cancelled_step. Qed.
+Print Assumptions C06_cancelled_step.
+
+(* cancelling by itself changes nothing observable: disk, events and every other request are untouched (the cancelled
+   request keeps everything but its flag: E1Thms.e1_cancel_self) *)
+Theorem C06_cancel_only_flag : forall s t s', step s (ACancel t) = Some s' ->
+  persisted s' = persisted s /\ published s' = published s /\
+  forall u, u <> t -> get_thread (threads s') u = get_thread (threads s) u.
+Proof. exact e1_cancel_only_flag. Qed.
+Print Assumptions C06_cancel_only_flag.
+
+(* non-vacuity (E1V0.sched_cancel): request 1 holds the locks of accounts 1 and 2, request 2 (key 7, reference 9)
+   queues behind it, is cancelled and gives up; 1 completes. 2 is answered [RErr ELockCancelled], the disk holds the
+   funding entry and the entry of 1, nothing of 2; key, reference, lock table and queue are empty; no event for 2 *)
+Example C06_cancel_example :
+  (exists s0, run init sched_queued = Some s0 /\ v_queue s0 = [2] /\ v_iks s0 = [7%N] /\ v_refs s0 = [9%N] /\
+     map (fun p => (fst p, t_pc (snd p))) (threads s0) = [(0, PFinished); (1, PLocked); (2, PEnqueued)]) /\
+  exists s, run init sched_cancel = Some s /\
+    map (fun p => (fst p, t_resp (snd p), t_cancelled (snd p))) (threads s) =
+      [(0, Some (ROk (Some 0)), false); (1, Some (ROk (Some 1)), false); (2, Some (RErr ELockCancelled), true)] /\
+    map e_owner (persisted s) = [0; 1] /\ length (persisted s) = 2 /\ map ev_tid (published s) = [0; 1] /\
+    v_iks s = [] /\ v_refs s = [] /\ v_locks s = [] /\ v_queue s = [].
+Proof.
+  split; (eexists; split; [vm_compute; reflexivity|]); vm_compute; repeat split; reflexivity.
+Qed.
+
+(* the other branch (E1V0.sched_cancel_granted / sched_cancel_reuse): 2 is cancelled, 1 completes and its release GRANTS
+   the locks to 2; both [AResume 2] and [AResumeCancelled 2] are enabled; 2 gives up, hands the grant back, and
+   request 3 then uses key 7 and reference 9 again and is acknowledged tx 2 *)
+Example C06_cancel_granted_example :
+  (exists s0, run init sched_cancel_granted = Some s0 /\ v_locks s0 = [(2, [1%N; 3%N], [1%N])] /\
+     map (fun p => (fst p, t_pc (snd p), t_granted (snd p), t_cancelled (snd p))) (threads s0) =
+       [(0, PFinished, false, false); (1, PUnlocked, false, false); (2, PEnqueued, true, true)] /\
+     (exists s1, step s0 (AResume 2) = Some s1) /\ (exists s1, step s0 (AResumeCancelled 2) = Some s1 /\ v_locks s1 = [])) /\
+  exists s, run init sched_cancel_reuse = Some s /\
+    map (fun p => (fst p, t_resp (snd p))) (threads s) =
+      [(0, Some (ROk (Some 0))); (1, Some (ROk (Some 1))); (2, Some (RErr ELockCancelled)); (3, Some (ROk (Some 2)))] /\
+    map e_owner (persisted s) = [0; 1; 3] /\ map e_ik (persisted s) = [0%N; 0%N; 7%N] /\
+    map e_ref (persisted s) = [0%N; 0%N; 9%N].
+Proof.
+  split.
+  - eexists. split; [vm_compute; reflexivity|]. split; [vm_compute; reflexivity|]. split; [vm_compute; reflexivity|].
+    split; eexists; [vm_compute; reflexivity|split; vm_compute; reflexivity].
+  - eexists. split; [vm_compute; reflexivity|]. vm_compute. repeat split; reflexivity.
+Qed.
+
+(* ... and holds no account lock and no place in the lock queue, in this and every later state (lock / queue hygiene
+   invariant of Engine/E5Lock.v, stated in Properties/C02_cancel.v: table and queue entries belong to unfinished
+   requests). Together with [C06_cancelled_no_trace] (no entry on disk, in the batcher or being built, not in the append
+   critical section) and [C06_cancelled_step] (key, reference and revert reservation given back by the step itself):
+   a request that gave up waiting for its locks holds nothing and leaves nothing. *)
+From FL Require Engine.E5Lock.
+Theorem C06_cancelled_holds_no_lock : forall s t th, reachable s -> get_thread (threads s) t = Some th ->
+  t_resp th = Some (RErr ELockCancelled) ->
+  ~ In t (v_queue s) /\ (forall h, In h (v_locks s) -> fst (fst h) <> t).
+Proof.
+  exact (fun s t th R G E =>
+    E5Lock.e5_finished_holds_no_lock s t th (E5Lock.e5_reachable_inv s R) G
+      (proj1 (proj2 (e1_cancelled_no_trace s t th R G E)))).
+Qed.
+Print Assumptions C06_cancelled_holds_no_lock.
